@@ -280,6 +280,71 @@ pub fn generic_pair<F: TowerSpec>(tc: &TC<F>, rep: &mut Report, rng: &mut Rng, a
         run!("Sum", 402, &[a, b, &c], [*a, *b, c].iter().sum::<F>(), t.add(&t.add(&ea, &eb), &ec));
         run!("Product", 403, &[a, b, &c], [*a, *b, c].iter().product::<F>(), t.mul(&t.mul(&ea, &eb), &ec));
     }
+    // the remaining operator spellings (owned / by reference / &mut, plain and compound); `b` non-zero for division
+    {
+        let mut bm = *b;
+        run!("add (a + &b)", 500, &[a, b], *a + b, t.add(&ea, &eb));
+        run!("add (a + &mut b)", 501, &[a, b], *a + &mut bm, t.add(&ea, &eb));
+        run!("add_assign (+= b)", 502, &[a, b], { let mut x = *a; x += *b; x }, t.add(&ea, &eb));
+        run!("add_assign (+= &mut b)", 503, &[a, b], { let mut x = *a; x += &mut bm; x }, t.add(&ea, &eb));
+        run!("sub (a - b)", 504, &[a, b], *a - *b, t.sub(&ea, &eb));
+        run!("sub (a - &mut b)", 505, &[a, b], *a - &mut bm, t.sub(&ea, &eb));
+        run!("sub_assign (-= &b)", 506, &[a, b], { let mut x = *a; x -= b; x }, t.sub(&ea, &eb));
+        run!("sub_assign (-= &mut b)", 507, &[a, b], { let mut x = *a; x -= &mut bm; x }, t.sub(&ea, &eb));
+        run!("mul (a * b)", 508, &[a, b], *a * *b, prod);
+        run!("mul (a * &mut b)", 509, &[a, b], *a * &mut bm, prod);
+        run!("mul_assign (*= &b)", 510, &[a, b], { let mut x = *a; x *= b; x }, prod);
+        run!("mul_assign (*= &mut b)", 511, &[a, b], { let mut x = *a; x *= &mut bm; x }, prod);
+        if !b.is_zero() {
+            for (k, q) in [
+                rep.total(&tc.sig("div (a / b)", "total"), || json!({"config": tc.name}), || *a / *b),
+                rep.total(&tc.sig("div (a / &mut b)", "total"), || json!({"config": tc.name}), || *a / &mut bm),
+                rep.total(&tc.sig("div_assign (/= b)", "total"), || json!({"config": tc.name}), || { let mut x = *a; x /= *b; x }),
+                rep.total(&tc.sig("div_assign (/= &b)", "total"), || json!({"config": tc.name}), || { let mut x = *a; x /= b; x }),
+                rep.total(&tc.sig("div_assign (/= &mut b)", "total"), || json!({"config": tc.name}), || { let mut x = *a; x /= &mut bm; x }),
+            ]
+            .into_iter()
+            .enumerate()
+            {
+                let Some(q) = q else { continue };
+                rep.eval(mix(dg, 520 + k as u64), nt);
+                if t.mul(&tc.el(&q), &eb) != ea {
+                    rep.violation(tc.sig(["div (a / b)", "div (a / &mut b)", "div_assign (/= b)", "div_assign (/= &b)", "div_assign (/= &mut b)"][k], "value"),
+                                  json!({"config": tc.name, "a": hexf(&flat(a)), "b": hexf(&flat(b)), "got": hexf(&flat(&q))}));
+                }
+            }
+        }
+        run!("neg_in_place", 530, &[a], { let mut x = *a; x.neg_in_place(); x }, t.neg(&ea));
+    }
+    // embeddings of machine integers (From<uN> / From<iN>): the integer mod p in the base prime field, zero elsewhere
+    {
+        let u: u128 = match rng.next_u32() % 5 {
+            0 => 0,
+            1 => 1,
+            2 => u128::MAX,
+            3 => rng.next_u64() as u128,
+            _ => ((rng.next_u64() as u128) << 64) | rng.next_u64() as u128,
+        };
+        let i = u as i128;
+        let emb_u = |v: u128| t.embed(&El::P(UInt::from(v) % &tc.p), 0, tc.d);
+        let emb_i = |v: i128| t.embed(&El::P(oracle::smod(&oracle::SInt::from(v), &tc.p)), 0, tc.d);
+        rep.class_if(i < 0, "From<iN>: negative integer into an extension field");
+        run!("From<u128>", 600, &[], F::from(u), emb_u(u));
+        run!("From<u64>", 601, &[], F::from(u as u64), emb_u(u as u64 as u128));
+        run!("From<u32>", 602, &[], F::from(u as u32), emb_u(u as u32 as u128));
+        run!("From<u16>", 603, &[], F::from(u as u16), emb_u(u as u16 as u128));
+        run!("From<u8>", 604, &[], F::from(u as u8), emb_u(u as u8 as u128));
+        run!("From<i128>", 605, &[], F::from(i), emb_i(i));
+        run!("From<i64>", 606, &[], F::from(i as i64), emb_i(i as i64 as i128));
+        run!("From<i32>", 607, &[], F::from(i as i32), emb_i(i as i32 as i128));
+        run!("From<i16>", 608, &[], F::from(i as i16), emb_i(i as i16 as i128));
+        run!("From<i8>", 609, &[], F::from(i as i8), emb_i(i as i8 as i128));
+        for m in [i128::MIN, i64::MIN as i128, -1] {
+            run!("From<i128>", 610, &[], F::from(m), emb_i(m));
+        }
+        run!("From<i64>", 611, &[], F::from(i64::MIN), emb_i(i64::MIN as i128));
+        run!("From<i8>", 612, &[], F::from(i8::MIN), emb_i(i8::MIN as i128));
+    }
     // flat round trip and wrong lengths
     {
         let f = flat(a);
